@@ -9,9 +9,14 @@ where the allow-list reason is structural it is machine-checked (unwrap dominate
 (b) dispatcher totality: every Command variant a parser constructs either has an explicit arm in dispatch_command or falls into a wildcard arm that writes a response and cannot panic.
 (c) unbounded recursion: every call-graph cycle inside the parser layer that is reachable from parse_command must carry a depth guard (reported per cycle).
 Not decided: termination of the peg runtime, implicit panics (arithmetic overflow, slice indexing, allocation), the engine below the handlers (reported as a count only), print/parse round trip (sneldb has no command printer).
+(d) byte offsets: wherever the parser layer slices a string (`s[a..b]`, split_at, get(range)) at a position found by searching (find / rfind / match_indices / char_indices / position), the string searched is
+the sliced string itself or a byte-for-byte congruent copy of it (to_ascii_uppercase / to_ascii_lowercase); a Unicode case mapping (to_uppercase / to_lowercase) changes byte lengths, so its offsets
+slice the original off a char boundary (panic) or at the wrong place. Decides the congruence of the searched and the sliced string, not that the arithmetic on the offset is right.
+(e) precedence is encoded by layering of the generated grammar functions (query and PlotQL): or_expr takes its operands from and_expr / or_expr, and_expr from factor / and_expr and never from or_expr / expr,
+factor (NOT) from factor, and a looser level is re-entered from factor only after a matched "(" literal; each level's action builds its own node (Or / And / Not).
 """
-FLOOR = 3
-REQUIRED = ["C17.a1", "C17.a2", "C17.b", "C17.c"]
+FLOOR = 5
+REQUIRED = ["C17.a1", "C17.a2", "C17.b", "C17.c", "C17.d", "C17.e"]
 
 PANIC = re.compile(r"(option::Option::(unwrap|expect|unwrap_unchecked)|result::Result::(unwrap|expect|unwrap_err|expect_err|unwrap_unchecked)|"
                    r"panicking::(panic\w*|unreachable_display|assert_failed\w*|begin_panic\w*)|rt::(begin_panic|panic_fmt)\w*)$")
@@ -297,6 +302,85 @@ def run(ctx):
                                 "%s deserialises user text into the recursive serde_json::Value with %s (no depth limit): nested braces become native stack depth" % (base(k), n), None))
         return bad
     ctx.run("C17.c", "K4 REACH (cycles)", "parser layer call-graph cycles", "input nesting cannot exhaust the native stack", c)
+
+    SEARCH = re.compile(r"str::(find|rfind|match_indices|rmatch_indices|char_indices|find_map)$|Iterator>::position$|::position$|::rposition$")
+    SLICE = re.compile(r"Index<.*> for str>::index$|for str>::index$|str::traits::index(_mut)?$|str::split_at$|str::split_at_checked$|str::get$|str::get_unchecked$|String::truncate$|String::split_off$|String::drain$")
+    UNICODE_CASE = re.compile(r"str::(to_uppercase|to_lowercase)$")
+    ASCII_CASE = re.compile(r"str::(to_ascii_uppercase|to_ascii_lowercase)$|slice::.*to_ascii_(upper|lower)case$")
+
+    def d(inst):
+        bad, n = [], 0
+        keys = [k for k in F.keys() if in_parser(norm_path(k)) and not k.startswith("bin:")]
+        for k in keys:
+            if "::__parse_" in k:
+                continue  # peg-generated rule functions only slice at positions peg itself advanced
+            b = F.fn_exact(k)
+            sl = [c_ for c_ in b.calls if not c_.cleanup and SLICE.search(c_.nname)]
+            if not sl:
+                continue
+            for c_ in sl:
+                bound_ops = c_.args[1:]
+                locs = set()
+                for a_ in bound_ops:
+                    locs |= wide_all(b, a_)
+                srch = [x for x in b.calls if not x.cleanup and x.dest and x.dest[0] in locs and SEARCH.search(x.nname)]
+                if not srch:
+                    continue
+                n += 1
+                for x in srch:
+                    # the searched string: receiver of find / the string whose char_indices are taken
+                    recv_locs = wide_all(b, x.args[0])
+                    conv = [y for y in b.calls if not y.cleanup and y.dest and y.dest[0] in recv_locs and (UNICODE_CASE.search(y.nname) or ASCII_CASE.search(y.nname))]
+                    uni = [y for y in conv if UNICODE_CASE.search(y.nname)]
+                    inst.sites.append("%s @ %s: sliced at an offset from %s%s" % (base(k).split("::")[-1] if "::" in base(k) else base(k), sp(b, c_.bb), x.nname.split("::")[-1], " over " + conv[0].nname.split("::")[-1] if conv else ""))
+                    if not (recv_locs & wide_all(b, c_.args[0])):
+                        bad.append(("offset-from-unrelated-string:%s" % base(k), "%s slices a string (%s) at an offset found by %s in a string that is not derived from it" % (base(k), sp(b, c_.bb), x.nname.split("::")[-1]), None))
+                    if uni:
+                        bad.append(("offset-from-unicode-case-mapping:%s" % base(k), "%s slices a string (%s) at an offset found by %s in a %s copy: Unicode case mapping changes byte lengths, the offset is not valid in the original" % (base(k), sp(b, c_.bb), x.nname.split("::")[-1], uni[0].nname.split("::")[-1]), None))
+        if n < 2:
+            raise AnchorMissing("search-then-slice sites in the parser layer (found %d, confirmed >= 2 in remember.rs)" % n)
+        return bad
+    ctx.run("C17.d", "K7 PROV", "parser layer: search-then-slice sites", "offsets used to slice the input come from a byte-congruent string", d)
+
+    def e(inst):
+        bad = []
+        grammars = [("query", "command::parser::commands::query::sneldb_query::", "__parse_expr"), ("plotql", "command::parser::commands::plotql::plotql_parser::", "__parse_expression")]
+        for gname, pre, entry in grammars:
+            lv = {entry: 0, "__parse_or_expr": 0, "__parse_and_expr": 1, "__parse_factor": 2}
+            node = {"__parse_or_expr": "Or", "__parse_and_expr": "And", "__parse_factor": "Not"}
+            for fn in lv:
+                if not F.has(pre + fn):
+                    raise AnchorMissing(pre + fn)
+            for fn, L in lv.items():
+                if fn == entry:
+                    continue
+                b = F.fn_exact(pre + fn)
+                rc = [c_ for c_ in b.calls if not c_.cleanup and c_.nname.startswith(pre) and c_.nname[len(pre):] in lv]
+                tighter_needed = {0: "__parse_and_expr", 1: "__parse_factor", 2: None}[L]
+                called = sorted({c_.nname[len(pre):] for c_ in rc})
+                inst.sites.append("%s %s -> %s" % (gname, fn[8:], [x[8:] for x in called]))
+                if tighter_needed and tighter_needed not in called:
+                    bad.append(("operand-level:%s:%s" % (gname, fn[8:]), "%s grammar: %s does not take an operand from %s" % (gname, fn[8:], tighter_needed[8:]), None))
+                paren = []
+                for pl in b.find_calls(r"ParseLiteral.*::parse_string_literal$"):
+                    if any(l[0] == "const" and l[1].strip('"') == "(" for l in b.origins(pl.args[2])):
+                        paren += variant_edge(b, pl, "Matched")
+                for c_ in rc:
+                    callee = c_.nname[len(pre):]
+                    if lv[callee] < L and not any(b.dominates_edge(e_, c_.bb) for e_ in paren):
+                        bad.append(("looser-operand:%s:%s->%s" % (gname, fn[8:], callee[8:]), "%s grammar: %s takes an operand from the looser level %s without parentheses (%s): precedence NOT > AND > OR is lost" % (gname, fn[8:], callee[8:], sp(b, c_.bb)), None))
+                # the node built by this level's actions
+                built = set()
+                for ck in F.find("^" + re.escape(pre + fn) + r"::\{closure#\d+\}$"):
+                    C = F.fn_exact(ck)
+                    for (bb, j, v, dst) in C.aggregates("types::Expr"):
+                        built.add(v["var"])
+                for (bb, j, v, dst) in b.aggregates("types::Expr"):
+                    built.add(v["var"])
+                if node[fn] not in built or (built & {"Or", "And", "Not"}) - {node[fn]}:
+                    bad.append(("level-node:%s:%s" % (gname, fn[8:]), "%s grammar: %s builds %s (expected Expr::%s only)" % (gname, fn[8:], sorted(built), node[fn]), None))
+        return bad
+    ctx.run("C17.e", "K4 REACH + K6 TABLE", "generated grammar functions or_expr / and_expr / factor (query, PlotQL)", "NOT binds tighter than AND binds tighter than OR; parentheses override", e)
 
 
 # cycles whose overflow was reproduced against the real code (DESIGN.md §4c); others are reported as notes until triaged
